@@ -502,6 +502,22 @@ func queueFaults() []*fault {
 		value("echo-leaf-type-255", "echoed-leaf-unknown-leaf-type", w5, func(b []byte) []byte { b[1] = 255; return b }),
 		value("echo-entry-type-2", "echoed-leaf-unknown-entry-type", w5, func(b []byte) []byte { b[10], b[11] = 0, 2; return b }),
 		value("echo-entry-type-65535", "echoed-leaf-unknown-entry-type", w5, func(b []byte) []byte { b[10], b[11] = 0xff, 0xff; return b }),
+		// the optional parts of the echoed leaf other than its value: absent, or shorter than anything indexes into.
+		// The statement prescribes no status for these (the value, which is all the SCT needs, is sound); no crash.
+		&fault{name: "echo-without-identity-hash", class: "echoed-leaf-optional-part-absent", rpc: rpc, want: wFree,
+			mut: func(_ *inj, m proto.Message) proto.Message { ql(m).QueuedLeaf.Leaf.LeafIdentityHash = nil; return m }},
+		&fault{name: "echo-identity-hash-4-bytes", class: "echoed-leaf-optional-part-absent", rpc: rpc, want: wFree,
+			mut: func(_ *inj, m proto.Message) proto.Message {
+				l := ql(m).QueuedLeaf.Leaf
+				l.LeafIdentityHash = append([]byte{}, l.LeafIdentityHash[:4]...)
+				return m
+			}},
+		&fault{name: "echo-without-extra-data-merkle-hash-timestamps", class: "echoed-leaf-optional-part-absent", rpc: rpc, want: wFree,
+			mut: func(_ *inj, m proto.Message) proto.Message {
+				l := ql(m).QueuedLeaf.Leaf
+				ql(m).QueuedLeaf.Leaf = &trillian.LogLeaf{LeafValue: l.LeafValue}
+				return m
+			}},
 		// not named by the statement: a leaf of another protocol version decodes structurally
 		value("echo-version-1", "echoed-leaf-other-version", wFree, func(b []byte) []byte { b[0] = 1; return b }),
 	)
